@@ -2097,8 +2097,8 @@ enum Style {
 /// slot 2 for an upgraded one) through type-erased wrappers.
 fn erase_program(p: &Program, style: Style) -> Program {
     let uses = |f: &dyn Fn(&Step) -> bool| p.steps.iter().any(|s| f(s) || matches!(s, Step::SendThen { other, .. } if f(other)));
-    let is_tell = |s: &Step| matches!(s, Step::Send { kind: SendKind::Tell | SendKind::TellTO(_), slot: 0, .. } | Step::SendThen { kind: SendKind::Tell, slot: 0, .. });
-    let is_ask = |s: &Step| matches!(s, Step::Send { kind: SendKind::Ask | SendKind::AskTO(_), slot: 0, .. } | Step::SendThen { kind: SendKind::Ask, slot: 0, .. });
+    let is_tell = |s: &Step| matches!(s, Step::Send { kind: SendKind::Tell | SendKind::TellTO(_), slot: 0, .. } | Step::SendThen { kind: SendKind::Tell | SendKind::TellTO(_), slot: 0, .. });
+    let is_ask = |s: &Step| matches!(s, Step::Send { kind: SendKind::Ask | SendKind::AskTO(_), slot: 0, .. } | Step::SendThen { kind: SendKind::Ask | SendKind::AskTO(_), slot: 0, .. });
     let need_tell = uses(&is_tell);
     let need_ask = uses(&is_ask);
     let (t, a, c): (u8, u8, u8) = (10, 11, 12);
@@ -2306,6 +2306,22 @@ pub fn gen_c16(lvl: u8) -> Vec<(Scenario, Vec<Scenario>)> {
             let c1 = Program::new(vec![(0, 0)], vec![send(SendKind::Tell, 0, MsgSpec::m1(ids.next()))]);
             n += 1;
             push_group(format!("c16-{n}-lazy-{first:?}-drop{drop_first}"), ActorSpec::plain(2), vec![c0, c1], &mut groups);
+        }
+    }
+    // a timed send whose future is made at t=0 and first polled at t=5: the deadline counts from the first poll,
+    // through every route; the callee is busy until t=12, so a deadline counted from t=0 would expire first
+    for first in [SendKind::TellTO(10), SendKind::AskTO(10)] {
+        for cap in [1usize, 2] {
+            let mut ids = Ids(0);
+            let mut busy = MsgSpec::m1(ids.next()).steps(vec![Step::Sleep(12)]);
+            busy.entry_yield = false;
+            let mut filler = MsgSpec::quick(ids.next());
+            filler.entry_yield = false;
+            let m1 = MsgSpec::quick(ids.next());
+            let c1 = Program { slots: vec![(0, 0)], steps: if cap == 1 { vec![send(SendKind::Tell, 0, busy), send(SendKind::Tell, 0, filler)] } else { vec![send(SendKind::Tell, 0, busy)] }, auto_yield: false, free: false };
+            let c0 = Program::new(vec![(0, 0)], vec![Step::Yield, Step::SendThen { kind: first, slot: 0, msg: m1, other: Box::new(Step::Sleep(5)), drop_first: false }]);
+            n += 1;
+            push_group(format!("c16-{n}-lazy-deadline-{first:?}-cap{cap}"), ActorSpec::plain(cap), vec![c0, c1], &mut groups);
         }
     }
     groups
